@@ -225,14 +225,14 @@ def replay(ctx, v):
     proc = case['proc']
     if proc.endswith(':Rand'):
         # the model over-approximates StdRng (every draw arbitrary): search seeds for one that reproduces
-        for sd in range(60):
-            out = nat.call(native_cmd(case, {'seed': sd}), timeout=3)
+        for sd in range(24):
+            out = nat.call(native_cmd(case, {'seed': sd}), timeout=2)
             probs = judge_native(out, case)
             if probs: return 'reproduced', {'seed': sd, 'native_output': out, 'problems': probs}
-        return 'not-reproduced', {'note': 'no seed in 0..59 reproduces'}
+        return 'not-reproduced', {'note': 'no seed in 0..23 reproduces'}
     extra = {}
     if v.get('custom_choices') is not None: extra['custom_choices'] = v['custom_choices']
-    out = nat.call(native_cmd(case, extra), timeout=20)
+    out = nat.call(native_cmd(case, extra), timeout=8)
     probs = judge_native(out, case)
     if probs: return 'reproduced', {'native_output': out, 'problems': probs}
     return 'not-reproduced', {'native_output': out}
